@@ -62,8 +62,8 @@ func drawParams(r *rand.Rand) circParams {
 	}
 	p.Live = liveCfg{
 		Timeout: hc.Pick(r, int64(-1), 1, ms, sec, sec, 0),
-		Max:     hc.Pick(r, int64(-1), 1, 2, 2, 10, 0),
-		FbMax:   hc.Pick(r, int64(-1), 1, 1, 2, 10, 0),
+		Max:     hc.Pick(r, int64(-1), 1, 2, 2, 10, 0, 1<<63-1, -1<<63), // every limit: the ends of the int64 range too
+		FbMax:   hc.Pick(r, int64(-1), 1, 1, 2, 10, 0, 1<<63-1, -1<<63),
 		IE:      hc.Pick(r, "nil", "nil", "true", "false"),
 	}
 	if r.Intn(12) == 0 {
@@ -262,9 +262,9 @@ func (circFamily) Gen(r *rand.Rand, i int, tier string) *hc.Case {
 			case 2:
 				nl.Disabled = !nl.Disabled
 			case 3:
-				nl.Max = hc.Pick(r, int64(-1), 0, 1, 2, 10)
+				nl.Max = hc.Pick(r, int64(-1), 0, 1, 2, 10, 1<<63-1)
 			case 4:
-				nl.FbMax = hc.Pick(r, int64(-1), 0, 1, 2)
+				nl.FbMax = hc.Pick(r, int64(-1), 0, 1, 2, 1<<63-1)
 			case 5:
 				nl.Timeout = hc.Pick(r, int64(-1), 0, 1, ms, sec)
 			case 6:
